@@ -26,7 +26,7 @@ ASSUMPTIONS = ['Coordinates of the neighbour-search point sets are small integer
                'A violation seen only under the scripted generator is reported only when a real integer seed '
                'reproducing the same clause violation is found (G1c).']
 BOUNDS = {'quick': dict(pairs_len=6, chunks_len=6, knn_len=6, e3_len=5, e3_cap=1500, e3_dev=1),
-          'thorough': dict(pairs_len=8, chunks_len=7, knn_len=8, e3_len=6, e3_cap=60000, e3_dev=2)}
+          'thorough': dict(pairs_len=7, chunks_len=7, knn_len=7, e3_len=6, e3_cap=20000, e3_dev=2)}
 
 
 # ----------------------------------------------------------------------------- reference rules
